@@ -22,6 +22,8 @@ from .core import log, Infra
 class ModelRun:
     def __init__(self, module, cfg, workers=8, xmx='8g', timeout=3000, simulate=None, note=''):
         self.module, self.cfg, self.workers, self.xmx, self.timeout, self.simulate, self.note = module, cfg, workers, xmx, timeout, simulate, note
+        self.hint = {}
+        self.expect = None
 
 
 class CheckDef:
@@ -30,6 +32,7 @@ class CheckDef:
     harness_args = ()            # extra key=value args for every harness run
     models = {'quick': [], 'thorough': []}       # lists of ModelRun
     conf = None                  # ModelRun for the conformance graph (dumped)
+    confs = None                 # or several of them (each may carry a .hint dict passed to path_header)
     conf_limit = {'quick': 2500, 'thorough': None}
     trace_spec = None            # (module, cfg) algorithm-level trace specification
     monitors = []                # list of (module, cfg) property monitors
@@ -72,8 +75,9 @@ def prog_string(prog):
     return '/'.join(';'.join(','.join(str(c) for c in menu) for menu in thread) for thread in prog)
 
 
-def path_to_sched(cd, g, path):
-    s0 = g.state0[path[0]]
+def path_to_sched(cd, g, path, hint=None):
+    s0 = dict(g.state0[path[0]])
+    s0['_hint'] = hint or {}
     evs = [g.ev[n] for n in path[1:]]
     n = cd.nthreads(s0)
     steps = list(cd.driver_prefix(s0))
@@ -98,6 +102,8 @@ class Result:
         self.drift = []
         self.known = []
         self.notes = []
+        self.monnotes = []     # (text, reset event of the execution)
+        self.resets = []       # reset events of all executions
 
 
 def run_check(cd, tier, seed):
@@ -144,28 +150,32 @@ def run_check(cd, tier, seed):
     # ---- 3. model -> code ------------------------------------------------------------------------
     replayed = 0
     replay_mismatch = []
-    if cd.conf is not None:
-        r, g = core.dump_graph(cd.conf.module, os.path.join(core.SPECS, cd.conf.cfg), workers=cd.conf.workers, tag=cd.pid + 'conf',
-                               xmx=cd.conf.xmx)
+    conf_list = cd.confs if cd.confs else ([cd.conf] if cd.conf is not None else [])
+    cov['conformance_graphs'] = []
+    for conf in conf_list:
+        r, g = core.dump_graph(conf.module, os.path.join(core.SPECS, conf.cfg), workers=conf.workers, tag=cd.pid + 'conf',
+                               xmx=conf.xmx)
         if g is None:
             raise Infra('conformance graph failed: %s\n%s' % (r.error or r.violated, r.out[-2000:]))
-        paths, nedges = core.edge_cover(g, limit=cd.conf_limit.get(tier), seed=seed)
+        lim = cd.conf_limit.get(tier)
+        if lim is not None:
+            lim = max(200, lim // len(conf_list))
+        paths, nedges = core.edge_cover(g, limit=lim, seed=seed)
         lines = []
         expected = []
         for p in paths:
-            line, evs = path_to_sched(cd, g, p)
+            line, evs = path_to_sched(cd, g, p, conf.hint)
             lines.append(line)
             expected.append(evs)
-        log('[conf] graph %d nodes, %d edges; %d root paths%s' % (len(g.ev), nedges, len(paths),
-                                                                   '' if cd.conf_limit.get(tier) is None else ' (limit %s)' % cd.conf_limit.get(tier)))
-        cov['conformance_graph'] = {'nodes': len(g.ev), 'edges': nedges, 'paths_replayed': len(paths),
-                                    'edge_cover_complete': cd.conf_limit.get(tier) is None or len(paths) < cd.conf_limit.get(tier)}
-        # replay: jobs == 1 chunking must keep order to compare => run per chunk and compare per file
+        log('[conf] %s: graph %d nodes, %d edges; %d root paths%s' % (conf.cfg, len(g.ev), nedges, len(paths),
+                                                                       '' if lim is None else ' (limit %s)' % lim))
+        cov['conformance_graphs'].append({'cfg': conf.cfg, 'nodes': len(g.ev), 'edges': nedges, 'paths_replayed': len(paths),
+                                          'edge_cover_complete': lim is None or len(paths) < lim})
         jobs = core.NCPU
         chunks = [list(range(i, len(lines), jobs)) for i in range(jobs)]
         chunks = [c for c in chunks if c]
         files, summ = core.run_harness(binary, cd.harness_args, 0, seed, jobs=jobs, tag=cd.pid + 'rep', sched_lines=lines)
-        # run_harness splits lines[i::jobs] in the same way
+        n_here = 0
         for ci, f in enumerate(files):
             evs = core.read_trace(f)
             exs = core.executions(evs)
@@ -175,10 +185,12 @@ def run_check(cd, tier, seed):
             for (start, xe), pi in zip(exs, idxs):
                 mm = core.compare_replay(expected[pi], xe, cd.fields)
                 replayed += 1
+                n_here += 1
                 if mm is not None:
                     replay_mismatch.append({'schedule': lines[pi], 'at': mm, 'expected': expected[pi][mm] if mm < len(expected[pi]) else None})
             all_files.append((f, 'model-path'))
-        n_exec += replayed
+        n_exec += n_here
+    if conf_list:
         log('[conf] replayed %d model paths on the real code: %d mismatches' % (replayed, len(replay_mismatch)))
         if replay_mismatch:
             res.drift.append('model->code replay: %d of %d paths diverge, first: %s' % (len(replay_mismatch), replayed,
@@ -186,7 +198,6 @@ def run_check(cd, tier, seed):
         cov['model_paths_replayed'] = replayed
         cov['model_path_mismatches'] = len(replay_mismatch)
 
-    phase('model->code')
     # ---- 4. code -> model ------------------------------------------------------------------------
     mult = 4 if res.drift else 1
     for (label, b) in binaries:
@@ -238,13 +249,17 @@ def run_check(cd, tier, seed):
         for x in fnd:
             if x['kind'] == 'error':
                 raise Infra('monitor failed: ' + x['text'])
+            if x['kind'] == 'note':
+                ex = core.exec_at_line(events_of(x['file']), x['line'])
+                res.monnotes.append((x['text'], ex[1][0] if ex else None))
+                continue
             if x['kind'] == 'rejected':
                 raise Infra('monitor %s got stuck at line %s of %s (monitors must accept every trace)' % (mod, x['line'], x['file']))
             mt = re.match(r'(C\d+):', x['text'])
             if mt and cd.tags and mt.group(1) not in cd.tags and not any(tg in x['text'] for tg in cd.tags):
                 continue
             cands.append((mod, x))
-        log('[validate] %s: %d candidate violations' % (mod, len(fnd)))
+        log('[validate] %s: %d candidate violations' % (mod, len([y for y in fnd if y['kind'] == 'monviol'])))
 
     phase('monitor validation')
     # distinct / non-trivial counting
@@ -255,6 +270,7 @@ def run_check(cd, tier, seed):
     for f in files:
         for start, xe in core.executions(events_of(f)):
             total += 1
+            res.resets.append(xe[0])
             s = core.exec_signature(xe)
             sigs.add(s)
             if core.has_inner_switch(xe):
@@ -311,8 +327,11 @@ def run_check(cd, tier, seed):
         if len(res.violations) >= 5:
             break
 
+    if hasattr(cd, 'post'):
+        cd.post(res, cov, tier, seed)
     cov['candidate_violations'] = dict(per_text)
     cov['drift'] = res.drift[:5]
     wall = time.time() - t0
+    cov['candidate_violations'] = dict(per_text)
     core.write_evidence(cd.pid, tier, seed, cd.level, cov, wall, len(res.violations), cd.assumptions)
     return res
